@@ -263,8 +263,14 @@ def run(ctx, args):
                       (":created" if after != before else ":fetched")))
             if after != before:
                 ctx.nontrivial_case((src, expr, tuple(pos), json.dumps(namespaces)))
+            if dict(m_eval).get("", "") != dict(m_create).get("", ""):
+                classes.append("empty-namespaces-mapping")
+            if "undeclared-prefix" in classes and out == ("rejected", "XPathEvaluationError") and after != before:
+                classes.append("undeclared-prefix-after-creation")
             for b in bad:
-                ctx.fail(b, dict(small, classes=classes, outcome=out), classify)
+                ctx.fail(b, dict(small, classes=classes, outcome=out),
+                         classify if (b.startswith("an exception (XPathEvaluationError) left the tree changed")
+                                      or "empty-namespaces-mapping" in classes) else None)
             ctx.sample(dict(small, outcome=out[0] + (":" + str(out[1]))))
             # ---- the model on the same case
             key = "T%d" % ci
